@@ -57,6 +57,11 @@ def generate(tier, rng):
         elif n and rng.random() < 0.15:
             v = rng.choice(fc.fault_variants(c["ops"][-1], n, persistent=False))
             yield dict(c, ops=c["ops"][:-1] + [v])
+    for n0, ops in fc.wide_histories(rng, tier):
+        fl = rng.choice(["nm", "light"])
+        if any(fc.has_nonnode(o) for o in ops):
+            fl = "nm"
+        yield fc.mk(fl, False, n0, ops, cls=(rng.choice(fc.NM_CLASSES) if fl == "nm" else None))
     for _ in range(300 if tier == "quick" else 4000):
         n0 = rng.randrange(3, 7)
         fl = rng.choice(["nm", "light"])
